@@ -3,6 +3,7 @@
 package main
 
 import (
+	"crypto/tls"
 	"encoding/json"
 	"errors"
 	"fmt"
@@ -14,6 +15,7 @@ import (
 	mail "github.com/wneessen/go-mail"
 
 	"verif/internal/ev"
+	"verif/internal/gen"
 	"verif/internal/refsmtp"
 )
 
@@ -34,6 +36,10 @@ type c20Case struct {
 	// Retry: after the judged call the whole batch is sent again by a new call to a server that accepts everything:
 	// no message of that batch is affected by any negative reply, so none may carry an error
 	Retry bool `json:"retry,omitempty"`
+	// StartTLS: "" = plain session | same = STARTTLS, same EHLO keywords before and after | flip = STARTTLS, and
+	// ENHANCEDSTATUSCODES is advertised before the handshake exactly when it is NOT advertised after it
+	// (ESCAdvertised always describes the EHLO reply in force while sending)
+	StartTLS string `json:"starttls,omitempty"`
 }
 
 var c20TextKinds = []string{"esc", "none", "esc-elsewhere", "multiline", "esc-midline", "esc-longer-dotted", "esc-with-suffix", "esc-only"}
@@ -69,6 +75,13 @@ func c20Text(kind string, code int) (text, esc string) {
 
 var reasonOf = map[string]mail.SendErrReason{
 	"MAIL": mail.ErrSMTPMailFrom, "RCPT": mail.ErrSMTPRcptTo, "DATA": mail.ErrSMTPData, "DATA-END": mail.ErrSMTPDataClose, "RSET": mail.ErrSMTPReset,
+}
+
+func c20ServerTLS(c c20Case) *tls.Config {
+	if c.StartTLS == "" {
+		return nil
+	}
+	return gen.ServerTLS(gen.TLS().Good, 0, 0)
 }
 
 var rcptListRe = regexp.MustCompile(`affected recipient\(s\): ([^\n]*?)(?:, affected message ID:|$)`)
@@ -109,9 +122,17 @@ func runC20Case(r *ev.Run, c c20Case) {
 		delivered := -1
 		return &refsmtp.Config{
 			AllowUTF8: true,
-			Caps: func(int, bool) []string {
+			TLS:       c20ServerTLS(c),
+			Caps: func(_ int, tlsOn bool) []string {
 				caps := []string{"8BITMIME", "DSN"}
-				if c.ESCAdvertised {
+				esc := c.ESCAdvertised
+				if c.StartTLS != "" && !tlsOn {
+					caps = append(caps, "STARTTLS")
+					if c.StartTLS == "flip" {
+						esc = !esc
+					}
+				}
+				if esc {
 					caps = append(caps, "ENHANCEDSTATUSCODES")
 				}
 				return caps
@@ -169,7 +190,11 @@ func runC20Case(r *ev.Run, c c20Case) {
 			},
 		}
 	}
-	sr := runSend(newCfg, nil, []mail.Option{mail.WithTLSPolicy(mail.NoTLS)}, msgs, c.Via, false)
+	copts := []mail.Option{mail.WithTLSPolicy(mail.NoTLS)}
+	if c.StartTLS != "" {
+		copts = []mail.Option{mail.WithTLSPolicy(mail.TLSMandatory), mail.WithTLSConfig(gen.ClientTLS(netHost, 0, 0))}
+	}
+	sr := runSend(newCfg, nil, copts, msgs, c.Via, false)
 	if sr.Panic != nil {
 		viol("panic", fmt.Sprintf("client panicked: %v", sr.Panic), nil)
 		return
@@ -294,7 +319,7 @@ func runC20Case(r *ev.Run, c c20Case) {
 
 func runC20(r *ev.Run, rep *ev.ReplayDoc) ev.Summary {
 	sum := ev.Summary{
-		Rule: "every reply code 400-599 x reply text kind {leading enhanced code, none, enhanced-code-like token elsewhere (IP address, version), multi-line, mid-line} x position {MAIL, RCPT (every non-empty subset of up to 3 recipients, last rejection with its own code), DATA, end-of-data, RSET} x ENHANCEDSTATUSCODES advertised or not x batches of 1-3 fresh messages with the fault in each slot, or the same fault in several messages of the batch, x Send/DialAndSend. quick: every code at every position once with rotating other dimensions; thorough: the full cross product. non-trivial: all; distinct by case",
+		Rule: "every reply code 400-599 x reply text kind {leading enhanced code, none, enhanced-code-like token elsewhere (IP address, version), multi-line, mid-line} x position {MAIL, RCPT (every non-empty subset of up to 3 recipients, last rejection with its own code), DATA, end-of-data, RSET} x ENHANCEDSTATUSCODES advertised or not (on plain sessions and after STARTTLS, where the EHLO reply before the handshake may say the opposite) x batches of 1-3 fresh messages with the fault in each slot, or the same fault in several messages of the batch, x Send/DialAndSend. quick: every code at every position once with rotating other dimensions; thorough: the full cross product. non-trivial: all; distinct by case",
 		Assumptions: []string{
 			"the recipient list is read from the error text (\"affected recipient(s): ...\"), the only place the API exposes it",
 			"RSET position = the RSET after the slot message's successful end-of-data",
@@ -332,6 +357,9 @@ func runC20(r *ev.Run, rep *ev.ReplayDoc) ev.Summary {
 						}
 					}
 					c.Retry = n%5 == 0
+					if n%6 == 1 {
+						c.StartTLS = []string{"flip", "same"}[(n/6)%2]
+					}
 					cases = append(cases, c)
 				}
 			}
@@ -355,6 +383,9 @@ func runC20(r *ev.Run, rep *ev.ReplayDoc) ev.Summary {
 								c.Code2 = 400 + (code+61)%200
 							}
 							c.Retry = n%7 == 0
+							if n%5 == 2 {
+								c.StartTLS = []string{"flip", "same"}[(n/5)%2]
+							}
 							if batch >= 2 && (n/3)%4 == 0 {
 								c.SlotMask = []int{3, (1 << batch) - 1, 1<<c.Slot | 1<<((c.Slot+1)%batch)}[(n/12)%3]
 							}
